@@ -285,7 +285,7 @@ func runC02(c *vk.Ctx) {
 		"acknowledgements are logged after the call returned / the callback ran, which can only make the oracle more lenient",
 		"single issuing goroutine, so the applied order is the call order; the concurrent part (2..4 issuers on disjoint ids, safe mode, jitter at every directory / plug-in / event seam) judges every crash image per issuer: that issuer's documents must be its own state after j batches, last acknowledged <= j <= last called")
 	start := time.Now()
-	runCrashEngine(c, crashRunOpts{traces: c.Pick(10, 300), batches: c.Pick(24, 40),
+	runCrashEngine(c, crashRunOpts{traces: c.Pick(10, 160), batches: c.Pick(24, 40),
 		classes: map[string]bool{"boundary": true, "torn-full": true, "torn-absent": true}})
 	_ = start
 	c02Concurrent(c)
